@@ -46,6 +46,10 @@ Lemma changes_cleared_only_by_successful_store :
   reg_single_changes_cleared_by_store = true.
 Proof. repeat split; reflexivity. Qed.
 
+(* load01 skips a row carrying the deleted mark (name -> Null ID) before any other check *)
+Lemma deleted_mark_rows_are_skipped : reg_qname_skips_deleted = true /\ reg_cont_skips_deleted = true.
+Proof. split; reflexivity. Qed.
+
 (* Rename writes its rows (new name := old ID, old name := 0) with ONE storage call, the PutBatch
    of store(); each store() issues exactly one PutBatch (anchored by the translator) *)
 Lemma rename_writes_rows_with_one_storage_call : reg_rename_atomic = true.
@@ -110,7 +114,7 @@ Theorem rename_moves_the_id :
   exists id, sm_get old (p_rows p) = Some id /\ skip cfg_q id = false /\
              sm_get new (p_rows (fst (rename cfg_q p old new f))) = Some id /\
              sm_get old (p_rows (fst (rename cfg_q p old new f))) = Some 0.
-Proof. exact (rename_moves_id cfg_q cfg_q_wf cfg_q_read eq_refl cfg_q_atomic). Qed.
+Proof. exact (rename_moves_id cfg_q cfg_q_wf cfg_q_skipdel cfg_q_read eq_refl cfg_q_atomic). Qed.
 
 (* Rename is all or nothing: whichever of its storage calls fails (the rows batch, the version row,
    the k-th write call) or after whichever the process stops, the stored rows are untouched or
@@ -123,13 +127,13 @@ Theorem rename_all_or_nothing :
   (exists id, sm_get old (p_rows p) = Some id /\ skip cfg_q id = false /\
      forall n, sm_get n (p_rows (fst (rename cfg_q p old new f))) =
                if bytes_eq_dec n new then Some id else if bytes_eq_dec n old then Some 0 else sm_get n (p_rows p)).
-Proof. exact (Proofs.rename_all_or_nothing cfg_q cfg_q_wf cfg_q_read eq_refl cfg_q_atomic). Qed.
+Proof. exact (Proofs.rename_all_or_nothing cfg_q cfg_q_wf cfg_q_skipdel cfg_q_read eq_refl cfg_q_atomic). Qed.
 
 (* ... and the side condition rename_writes_rows_with_one_storage_call is necessary: a Rename that
    writes the two rows with two storage calls (both always attempted) leaves, when exactly one of
    them fails, both names with the ID (A) or the ID with no name (B); a process stopping between
    them gives (A) *)
-Definition cfg_two_puts : rcfg := mkCfg 255 65535 true false true false.
+Definition cfg_two_puts : rcfg := mkCfg 255 65535 true false true true false.
 Theorem half_rename_if_two_storage_calls :
   let p := mkPers [([97], 256); ([98], 257)] 0 in
   p_rows (fst (rename cfg_two_puts p [98] [100] (RnWrite 2))) = [([97], 256); ([98], 257); ([100], 257)] /\
@@ -157,39 +161,74 @@ Proof. exact decode_stable. Qed.
    IDs really run out (allocated IDs stay below the limit by successful_start_is_injective) ---- *)
 Theorem limit_is_error_stores_nothing :
   forall c p v names f p' v',
-  c_sys_last c < c_max c -> c_needver c = false -> c_late c = true ->
+  c_sys_last c < c_max c -> c_skipdel c = true -> c_needver c = false -> c_late c = true ->
   rows_ok c (p_rows p) -> vol_ok c p v ->
   prepare c p v names f = (p', v', RErr 2) -> p' = p.
-Proof. exact (fun c p v names f p' v' Hwf Hr Hl => prepare_limit_keeps c Hwf Hr Hl p v names f p' v'). Qed.
+Proof. exact (fun c p v names f p' v' Hwf Hs Hr Hl => prepare_limit_keeps c Hwf Hs Hr Hl p v names f p' v'). Qed.
 
 Theorem no_limit_error_while_room :
   forall c p v names f m1,
-  c_sys_last c < c_max c -> c_needver c = false ->
+  c_sys_last c < c_max c -> c_skipdel c = true -> c_needver c = false ->
   rows_ok c (p_rows p) -> vol_ok c p v ->
   load_rows c (p_rows p) (v_mem v) = (m1, true) ->
   m_last m1 + N.of_nat (length names) < c_max c ->
   forall p' v', prepare c p v names f <> (p', v', RErr 2).
-Proof. exact (fun c p v names f m1 Hwf Hr => prepare_room c Hwf Hr p v names f m1). Qed.
+Proof. exact (fun c p v names f m1 Hwf Hs Hr => prepare_room c Hwf Hs Hr p v names f m1). Qed.
 
 (* ---- what the in-process retry relies on: a Prepare that failed in store() leaves its changes
    pending, so the retry stores again instead of starting the application on unstored IDs ---- *)
 Theorem failed_store_stays_pending :
   forall c p v names f p' v',
-  c_sys_last c < c_max c -> c_needver c = false -> c_late c = true ->
+  c_sys_last c < c_max c -> c_skipdel c = true -> c_needver c = false -> c_late c = true ->
   rows_ok c (p_rows p) -> vol_ok c p v ->
   prepare c p v names f = (p', v', RErr 1) -> v_changed v' = true.
-Proof. exact (fun c p v names f p' v' Hwf Hr Hl => failed_store_keeps_changes c Hwf Hr Hl p v names f p' v'). Qed.
+Proof. exact (fun c p v names f p' v' Hwf Hs Hr Hl => failed_store_keeps_changes c Hwf Hs Hr Hl p v names f p' v'). Qed.
 
 (* ... and the hypothesis c_late = true is necessary: a registry that clears the counter before
    calling store() starts the application, after a failed rows batch and an in-process retry, on
    an ID that is not stored *)
-Definition cfg_early : rcfg := mkCfg 255 65535 true false false true.
+Definition cfg_early : rcfg := mkCfg 255 65535 true false false true true.
 Theorem unstored_ids_if_counter_cleared_before_store :
   exists p1 v1 p2 v2 m n id,
     prepare cfg_early (mkPers [] 0) (vol0 cfg_early) [n] RFailBatch = (p1, v1, RErr 1) /\
     prepare cfg_early p1 v1 [n] RNoFault = (p2, v2, ROk m) /\
     sm_get n (m_names m) = Some id /\ sm_get n (p_rows p2) = None.
 Proof. do 4 eexists. exists (mkMem [([98], 256)] [(256, [98])] 256), [98], 256. vm_compute. repeat split. Qed.
+
+(* ---- deleted marks: a re-added name never inherits the Null ID.  The side condition
+   deleted_mark_rows_are_skipped is necessary: a registry whose load takes a deleted-mark row into
+   the name map hands the re-added name the Null ID (it counts as known, nothing is allocated) ---- *)
+Definition cfg_keeps_deleted : rcfg := mkCfg 63 65535 true false true false true.
+Theorem readded_name_gets_null_id_if_deleted_mark_is_loaded :
+  exists p' v' m,
+    prepare cfg_keeps_deleted (mkPers [([1], 0); ([2], 64)] 1) (vol0 cfg_keeps_deleted) [[1]; [2]] RNoFault = (p', v', ROk m) /\
+    sm_get [1] (m_names m) = Some 0.
+Proof. do 3 eexists. vm_compute. split; reflexivity. Qed.
+
+(* ---- Rename and singletons (finding C10-F2).
+   Full statement (what the property asks for): a Rename moves every ID of the old name to the new
+   name, i.e. also the singleton ID:
+     forall history with a successful Rename old -> new, a later start with new as a singleton
+     returns for new the singleton ID old had.
+   It is false for the code as it is: qrename.Rename renames in the QNames view only (anchored by
+   the translator), the Singletons view keeps the old name, and the renamed type is handed a new
+   singleton ID - the singleton record stored under the old ID is no longer reachable under it.
+   What does hold is per name: stored_ids_stable / ids_same_on_every_later_start (every singleton
+   name keeps its ID; the QNameID does move: rename_moves_the_id). ---- *)
+Theorem rename_moves_the_singleton_id_refuted :
+  exists l old new qn sn st' mq mc ms sid,
+    hist_ok false l /\ In (ARename old new NoFault) l /\
+    sm_get old (p_rows (s_s (fst (sys_run (fresh, proc0) l)))) = Some sid /\
+    sys_step (sys_run (fresh, proc0) l) (AStart qn [] sn NoFault) = (st', SOk mq mc ms) /\
+    In new sn /\ ~ In old qn /\
+    sm_get new (m_names mq) = Some 256 /\                  (* the QNameID moved: old had 256 *)
+    sm_get new (m_names ms) <> Some sid.                   (* the singleton ID did not *)
+Proof.
+  exists [AStart [[97]; [98]] [] [[97]; [98]] NoFault; ARename [97] [100] NoFault], [97], [100], [[98]; [100]], [[98]; [100]].
+  do 4 eexists. exists 65536. vm_compute.
+  repeat split; try reflexivity; try tauto; try (right; left; reflexivity); try discriminate.
+  intros [H|[H|[]]]; discriminate.
+Qed.
 
 (* ---------------- non-vacuity ---------------- *)
 
@@ -249,6 +288,11 @@ Example rename_all_or_nothing_nonvacuous :
   rename cfg_q p nB nD RnNone = (mkPers [(nA, 256); (nB, 0); (nD, 257)] 1, 0).
 Proof. vm_compute. repeat split. Qed.
 
+(* a deleted mark in the containers view: the name that comes back gets a fresh ID, never the Null ID *)
+Example deleted_mark_nonvacuous :
+  p_rows (fst (fst (prepare cfg_c (mkPers [(k1, 0); (k2, 64)] 1) (vol0 cfg_c) [k1; k2] RNoFault))) = [(k1, 65); (k2, 64)].
+Proof. vm_compute. reflexivity. Qed.
+
 (* the interruption between the rows and the version row of the first store, retried in the same
    process and followed by a new process with a grown schema *)
 Example interrupted_first_store_nonvacuous :
@@ -290,3 +334,5 @@ Print Assumptions limit_is_error_stores_nothing.
 Print Assumptions no_limit_error_while_room.
 Print Assumptions failed_store_stays_pending.
 Print Assumptions unstored_ids_if_counter_cleared_before_store.
+Print Assumptions readded_name_gets_null_id_if_deleted_mark_is_loaded.
+Print Assumptions rename_moves_the_singleton_id_refuted.
